@@ -115,6 +115,10 @@ func c15Drain(r io.Reader, bufs []int, tail int, dirty []byte) (out []byte, term
 				return
 			}
 			out = append(out, p[:n]...)
+			// the buffer is the caller's again: scribble on it (a reader must not retain p)
+			for j := range p {
+				p[j] = 0x55
+			}
 			if err != nil {
 				if err == io.EOF {
 					term = "eof"
